@@ -176,6 +176,19 @@ def run_case(case):
         r.violation(f'{sig}:fit-raises:{type(e).__name__}', f'{tag}: fit raised {type(e).__name__}: {e}', case=case)
         return r
     r.nontriv()
+    # a second model (same configuration, another table with other column names) is fitted while `gm` is alive: the matrix, the
+    # columns and the marginals examined below are still those of gm's own training table
+    try:
+        decoy_df, _ = tables.gaussian_copula_table((2 + df.shape[1] % 2, 'equi-', 'rotated', (), 25, 'plain'))
+        decoy_df.columns = [f'decoy{j}' for j in range(decoy_df.shape[1])]
+        tables.fit_gm(decoy_df, cfg if not isinstance(cfg, dict) else 'default')
+        r.tr()
+    except Exception:
+        pass
+    if list(getattr(gm, 'columns', [])) != list(df.columns) and not (kind == 'zoo-refit-nd'):
+        r.violation(f'{sig}:columns', f'{tag}: model.columns is {list(gm.columns)} after another model was fitted on another table; '
+                    f'the training columns are {list(df.columns)}', case=case)
+        return r
     cols = list(df.columns)
     C = gm.correlation
     M = np.asarray(C.to_numpy(), float)
